@@ -58,6 +58,11 @@ FRAGS = {
     "arr_contains": {"type": "array", "contains": INT}, "arr_max1": {"type": "array", "maxItems": 1},
     "ref_oneof": {"$ref": "#/definitions/PQ"}, "minprops2": {"type": "object", "minProperties": 2}, "maxprops1": {"type": "object", "maxProperties": 1},
 }
+# string formats typify maps to native types, reconciled pairwise by the merge (ip covers ipv4 and ipv6); paired among themselves and with the
+# plain / enumerated string fragments only
+FMT_FRAGS = {"fmt_ipv6": {"type": "string", "format": "ipv6"}, "fmt_date": {"type": "string", "format": "date"}, "fmt_datetime": {"type": "string", "format": "date-time"},
+             "fmt_unknown": {"type": "string", "format": "wibble"}, "fmt_only_ip": {"format": "ip"}}
+FMT_GROUP = ["fmt_ip", "fmt_ipv4", "fmt_ipv6", "fmt_uuid", "fmt_date", "fmt_datetime", "fmt_unknown", "fmt_only_ip", "str", "str_enum_ab"]
 QUICK = ["a_opt", "a_req", "b_req", "ab_closed", "ref_base", "ref_closed", "extra_req", "b_enum_xy", "b_enum_yz", "str_enum_ab", "enum_bc"]
 TRIPLE = ["a_opt", "a_req", "a_str", "b_req", "ab_closed", "ref_base", "extra_req", "b_enum_xy", "b_enum_yz", "ap_str", "oneof_pq", "req_a_only"]
 TRIPLE_QUICK = ["a_opt", "a_str", "a_req", "b_req", "b_enum_xy", "b_enum_yz"]   # conflicting / compatible declarations of one member, then a third operand that mentions it
@@ -95,6 +100,8 @@ def lifted_cases(tier):
 def cases(tier, seed):
     names = list(FRAGS)
     combos = list(itertools.permutations(names, 2))
+    FRAGS.update(FMT_FRAGS)
+    combos += [c for c in itertools.permutations(FMT_GROUP, 2) if c not in set(combos)]
     combos += list(itertools.permutations(TRIPLE if tier != "quick" else TRIPLE_QUICK, 3))
     out = lifted_cases(tier)
     for combo in combos:
